@@ -671,6 +671,13 @@ class Parser:
         if isinstance(expr, FilterQuery) and not expr.query.singular_query():
             raise JSONPathTypeError("non-singular query is not comparable", token=token)
 
+        if isinstance(
+            expr, (ComparisonExpression, LogicalExpression, PrefixExpression)
+        ):
+            raise JSONPathSyntaxError(
+                "logical expressions are not comparable", token=token
+            )
+
         if isinstance(expr, FunctionExtension):
             func = self.env.function_extensions.get(expr.name)
             if (
